@@ -73,6 +73,12 @@ use self::mrp::mrp_log;
 
 mod dedup;
 
+/// Verification hooks: re-export of the (private) message-counter de-duplication state.
+#[cfg(feature = "verif")]
+pub mod verif_dedup {
+    pub use super::dedup::*;
+}
+
 pub mod exchange;
 pub mod mrp;
 pub mod network;
